@@ -6,6 +6,14 @@ HERE = os.path.dirname(os.path.dirname(os.path.abspath(__file__)))
 
 CHECKS = {
  # id: (design section, claim text, level note, technique)
+ "C16": ("5 C16",
+  "doCmdCmp: the recorded updates change only on a normal return of a plain (not cmpenv), non-negated comparison that failed against a file of the script archive under UpdateScripts, and then exactly the entry keyed by that file's archive name is set to the actual text; "
+  "every other map entry and every other path leaves the recorded updates untouched (cmpenv, negated cmp and files outside the archive never modify the script). "
+  "applyScriptUpdates: the archive keeps its number, order and names of entries; an entry whose name has no recorded update keeps its data; the script file is written once, to ts.file, with Format(ts.archive); the comment is not written to (frame).",
+  "assumed: ReadFile/Logf/MkAbs are side-effect free on the modelled state (trusted), diff.Diff is pure, os.WriteFile and txtar.Format as extern contracts; map iteration order is arbitrary. "
+  "NOT decided: that an updated entry holds exactly the actual content (quoted iff NeedsQuote) — the map-iteration model does not give 'each key exactly once'; the fix-point clause (re-running passes and changes nothing) relies on C03's round trip and is not stated as a lemma here; "
+  "the explicit panic for an update whose entry is missing is allowed (allowpanic)",
+  "contract-based deductive verification: postconditions over the Go map heap (changed keys), nested loop invariants over the archive's entries, call-site obligations; z3/cvc5"),
  "C18": ("5 C18",
   "Contracts on every function of the import reader over a ghost input stream: the buffer always holds exactly the input bytes read so far (after an optional byte-order mark), errors and EOF are sticky, "
   "every slice expression (r.buf[start:], r.buf[:len-1]) is in bounds for arbitrary input and arbitrary I/O errors, the explicit 'import reader looping' panic is unreachable (nerr is bounded by per-function budgets), "
